@@ -72,7 +72,7 @@ func (sr *streamReader) Read(d []byte) (copied int, err error) {
 	}
 	// read whole sectors
 	for len(d) >= sr.sectorSize {
-		if sr.nextSector < 0 {
+		if sr.nextSector < 0 || int(sr.nextSector) >= len(sr.sat) {
 			return copied, errors.New("unexpected end to stream")
 		}
 		n, err := sr.readSector(sr.nextSector, d[:sr.sectorSize])
@@ -90,7 +90,7 @@ func (sr *streamReader) Read(d []byte) (copied int, err error) {
 	}
 	// read partial sector and buffer the rest
 	if len(d) > 0 {
-		if sr.nextSector < 0 {
+		if sr.nextSector < 0 || int(sr.nextSector) >= len(sr.sat) {
 			return copied, errors.New("unexpected end to stream")
 		}
 		// read the full sector
